@@ -410,11 +410,15 @@ pub struct BrokerCfg {
     /// what a Basic.Cancel is answered with: 0 CancelOk, 1 Connection.Close(320) instead,
     /// 2 Channel.Close(406) of that channel instead
     pub on_cancel: u8,
+    /// answer the client's Connection.Close with CloseOk
+    pub answer_conn_close: bool,
+    /// frames pushed right before the CloseOk that answers a Channel.Close
+    pub before_chan_close_ok: Vec<AMQPFrame>,
 }
 
 impl Default for BrokerCfg {
     fn default() -> Self {
-        BrokerCfg { mechanisms: "PLAIN EXTERNAL".into(), locales: "en_US".into(), tune: (2047, 131072, 0), auto_reply: true, message_on_get: false, deliver_on_consume: false, on_cancel: 0 }
+        BrokerCfg { mechanisms: "PLAIN EXTERNAL".into(), locales: "en_US".into(), tune: (2047, 131072, 0), auto_reply: true, message_on_get: false, deliver_on_consume: false, on_cancel: 0, answer_conn_close: true, before_chan_close_ok: Vec::new() }
     }
 }
 
@@ -479,6 +483,7 @@ impl Broker {
                             AMQPClass::Connection(connection::AMQPMethod::StartOk(_)) => Some(tune_frame(cfg.tune.0, cfg.tune.1, cfg.tune.2)),
                             AMQPClass::Connection(connection::AMQPMethod::TuneOk(_)) => None,
                             AMQPClass::Connection(connection::AMQPMethod::Open(_)) => Some(open_ok_frame()),
+                            AMQPClass::Connection(connection::AMQPMethod::Close(_)) if !cfg.answer_conn_close => None,
                             AMQPClass::Basic(basic::AMQPMethod::Cancel(_)) if cfg.on_cancel == 1 => Some(AMQPFrame::Method(
                                 0,
                                 AMQPClass::Connection(connection::AMQPMethod::Close(connection::Close { reply_code: 320, reply_text: "bye".into(), class_id: 0, method_id: 0 })),
@@ -504,6 +509,10 @@ impl Broker {
                         if let Some(r) = reply {
                             l2.lock().unwrap().replies.push((*ch, r.clone()));
                             let mut out = vec![r.clone()];
+                            if let AMQPClass::Channel(channel::AMQPMethod::Close(_)) = m {
+                                out = cfg.before_chan_close_ok.clone();
+                                out.push(r.clone());
+                            }
                             match (&r, m) {
                                 (_, AMQPClass::Basic(basic::AMQPMethod::Get(_))) if cfg.message_on_get => {
                                     out = vec![AMQPFrame::Method(*ch, AMQPClass::Basic(basic::AMQPMethod::GetOk(basic::GetOk {
